@@ -337,8 +337,7 @@ struct Hist {
         note(kind, std::to_string(s) + ">" + std::to_string(t));
         xfer.insert(std::string(op_code[kind]) + ":" + st_name(ms) + (is_assign ? ">" + st_name(mod[t]) : ""));
         c.announce(ctx);
-        Snap before = AD::snap(*obj[s]);
-        auto doit   = [&]() {
+        auto doit = [&]() {
             switch (kind) {
             case OP_COPY_CONSTRUCT: obj[t].reset(new Obj(*obj[s])); break;
             case OP_MOVE_CONSTRUCT: obj[t].reset(new Obj(std::move(*obj[s]))); break;
@@ -351,8 +350,10 @@ struct Hist {
         if (src_empty || (is_assign && empty_state(mod[t].st))) { // an empty object takes part: try it in a child first
             nprobe++;
             ProbeResult pr = probe_in_child([&]() {
+                Snap b = AD::snap(*obj[s]); // reading an empty object: sizes first, then as many elements as it claims
                 doit();
                 Snap x = AD::snap(*obj[t]);
+                (void)b;
                 (void)x;
             });
             if (!pr.ok) {
@@ -360,8 +361,10 @@ struct Hist {
                 nprobe_fail++;
             }
         }
+        Snap before;
         if (fail.empty()) {
             try {
+                before = AD::snap(*obj[s]);
                 doit();
                 done = true;
             }
